@@ -62,7 +62,7 @@ def level(e) -> int:
         return L_HAS
     if k == "not":
         return L_NOT
-    if k == "bin":
+    if k == "bin" or k == "chain":
         return BINOPS[e[1]][0]
     if k in ("lambda", "let", "with", "assert", "if"):
         return L_WEAK
@@ -202,6 +202,14 @@ def _emit_raw(e, out):
         _emit(e[2], lv if assoc == "left" else lv - 1, out)
         out.append(e[1])
         _emit(e[3], lv if assoc == "right" else lv - 1, out)
+    elif k == "chain":
+        lv, _assoc = BINOPS[e[1]]
+        for i, operand in enumerate(e[2]):
+            if i:
+                if e[3]:
+                    out.append(BR(0))
+                out.append(e[1])
+            _emit(operand, lv - 1, out)
     elif k == "lambda":
         head = e[1]
         if head[0] == "ident":
@@ -513,6 +521,8 @@ class Gen:
             return ("has", self.expr(), self.attrsegs())
         if k == "bin":
             return ("bin", r.choice(_OPS), self.expr(), self.expr())
+        if k == "chain":
+            return ("chain", r.choice(_CHAIN_OPS), tuple(self.expr() for _ in range(r.randint(3, 5))), r.random() < 0.7)
         if k == "lambda":
             return ("lambda", self.lambda_head(), self.expr())
         if k == "let":
@@ -532,8 +542,9 @@ class Gen:
         raise AssertionError(k)
 
 
-_COMPOUND = ["paren", "list", "set", "set", "select", "app", "app", "neg", "not", "has", "bin", "bin", "bin", "lambda", "lambda", "let", "with", "assert", "if", "str", "istr", "ipath"]
+_COMPOUND = ["paren", "list", "set", "set", "select", "app", "app", "neg", "not", "has", "bin", "bin", "bin", "chain", "lambda", "lambda", "let", "with", "assert", "if", "str", "istr", "ipath"]
 _OPS = sorted(BINOPS)
+_CHAIN_OPS = ["++", "//", "+", "&&", "||", "->", "*", "-"]
 
 
 def _seg_key(seg):
@@ -608,7 +619,7 @@ def walk(ast):
 
 
 _KINDS = {
-    "int", "float", "id", "str", "istr", "path", "uri", "paren", "set", "list", "select", "app", "neg", "not", "has", "bin",
+    "int", "float", "id", "str", "istr", "path", "uri", "paren", "set", "list", "select", "app", "neg", "not", "has", "bin", "chain",
     "lambda", "let", "with", "assert", "if", "bind", "inherit", "interp", "dyn", "qname", "formals", "ident",
 }
 
